@@ -22,7 +22,17 @@ func floatToString(value float64, bitsize int) string {
 		}
 		return "Infinity"
 	}
-	exponent := math.Log10(math.Abs(value))
+	// ECMA-262 9.8.1: the layout depends on the decimal exponent of the shortest
+	// digits; math.Log10 rounds to 21 (-6) just below 1e21 (1e-6).
+	exponent := 0
+	if shortest := strconv.FormatFloat(value, 'e', -1, bitsize); value != 0 {
+		for i := len(shortest) - 1; i > 0; i-- {
+			if shortest[i] == 'e' {
+				exponent, _ = strconv.Atoi(shortest[i+1:])
+				break
+			}
+		}
+	}
 	if exponent >= 21 || exponent < -6 {
 		return matchLeading0Exponent.ReplaceAllString(strconv.FormatFloat(value, 'g', -1, bitsize), "$1$2")
 	}
